@@ -59,6 +59,9 @@ var c07configs = []c07config{
 	{"os", nil, []string{"a", "."}}, {"os", nil, []string{".", "a"}}, {"os", nil, []string{".", "."}}, {"os", nil, []string{"a", ".", "b"}},
 	{"minimal", nil, []string{"a"}}, {"minimal", nil, []string{"a", "b"}},
 	{"custom", nil, []string{"a"}}, {"custom", nil, []string{"a", "b"}}, // a parent whose Rename reports failures as *PathError
+	// views of a directory that does not exist (yet): legal for the generic view and for os.FS; everything through the view
+	// must equal the same call at zz/name on the parent (also creating the whole chain with MkdirAll)
+	{"mem", nil, []string{"zz"}}, {"mount", []string{"a"}, []string{"zz"}}, {"mount", []string{"a"}, []string{"a/zz"}}, {"minimal", nil, []string{"zz"}}, {"os", nil, []string{"zz"}}, {"custom", nil, []string{"zz", "b"}},
 	{"mount-os", nil, []string{"a"}}, {"mount-os", nil, []string{"a", "b"}}, {"mount-os", nil, []string{"."}}, // a mount.FS rooted at an os.FS: the view reaches Lstat/Symlink/Chown only through the MountFS branches of the helpers
 }
 
